@@ -772,3 +772,9 @@ benign(
     ["C05", "C06", "C11"],
     (PTYPES_F, "    def open(self) -> zarr.Array:\n        return open_if_lazy_zarr_array(self.array)", "    def open(self) -> zarr.Array:\n        \"\"\"Open the (possibly lazy) array this proxy currently points to.\"\"\"\n        opened = open_if_lazy_zarr_array(self.array)\n        return opened"),
 )
+# F11 (fixed in 3fddc14): a public parameter used as a task-time divisor needs a build-time guard
+MANIPF = "cubed/array_api/manipulation_functions.py"
+mutant("M-F11-repeat-positivity-guard-removed", ["C17"], "DIVZERO-1", (MANIPF, "    if repeats < 1:\n        raise ValueError(\"repeat only supports positive values for `repeats`\")\n", ""))
+mutant("M126-repeat-guard-only-warns", ["C17"], "DIVZERO-1", (MANIPF, "    if repeats < 1:\n        raise ValueError(\"repeat only supports positive values for `repeats`\")\n", "    if repeats < 1:\n        import warnings\n\n        warnings.warn(\"repeat with non-positive `repeats`\")\n"))
+benign("B-repeat-guard-le-zero", ["C17"], (MANIPF, "    if repeats < 1:\n        raise ValueError(\"repeat only supports positive values for `repeats`\")\n", "    if repeats <= 0:\n        raise ValueError(f\"repeat needs a positive `repeats`, got {repeats}\")\n"))
+benign("B-repeat-guard-merged", ["C17"], (MANIPF, "    if not isinstance(repeats, int):\n        raise ValueError(\"repeat only supports integral values for `repeats`\")\n    if repeats < 1:\n        raise ValueError(\"repeat only supports positive values for `repeats`\")\n", "    if not isinstance(repeats, int) or repeats < 1:\n        raise ValueError(\"repeat only supports positive integral values for `repeats`\")\n"))
